@@ -214,6 +214,30 @@ class Shape:
                 return pref
         return 'nokw'
 
+    def alias_dup(self):
+        """two keyword keys that are different dict keys but match the same parameter: S('x') and SEq('X')
+        (S('x') == SEq('X') is False, SEq('X') == S('x') is True)"""
+        seen = {}
+        for k in self.kws:
+            if k[0] == '**':
+                for nk, n, _ in k[2]:
+                    if nk in ('S', 'SEq'):
+                        seen.setdefault(n.lower(), set()).add(nk)
+        return any(len(v) == 2 for v in seen.values())
+
+    def literal_dup(self):
+        """every keyword segment is a direct keyword or a ** dict display with constant keys (the compiler flattens
+        these into one keyword list) and some name occurs twice in that list"""
+        names = []
+        for k in self.kws:
+            if k[0] == 'k':
+                names.append(k[1])
+            elif k[1] == 'dict' and all(nk in ('interned', 'nonstr') for nk, _, _ in k[2]):
+                names += [n for nk, n, _ in k[2] if nk == 'interned']
+            else:
+                return False
+        return len(set(names)) != len(names)
+
     def has_keywords(self):
         return any(k[0] == 'k' or k[2] or k[1] in BAD_MAP for k in self.kws)
 
@@ -351,7 +375,7 @@ def gen_shape(rng, sig, intent=None, kwkind=None, valid_only=False, direct_only=
     npos_params = len(positional)
     nreq = sig.n_required_pos()
     if kwkind is None:
-        kwkind = rng.choice(['interned', 'interned', 'runtime', 'runtime', 'S', 'SEq', 'SNe'])
+        kwkind = rng.choice(['interned', 'interned', 'runtime', 'runtime', 'S', 'SEq'])
 
     def kwval(n):
         return str(200 + names.index(n)) if n in names else '299'
@@ -499,8 +523,9 @@ def gen_shape(rng, sig, intent=None, kwkind=None, valid_only=False, direct_only=
             kws.insert(rng.randint(0, len(kws)), ('**', rng.choice(['dict', 'D', 'mapabc']),
                                                   [('nonstr', rng.choice(names or ['zz']), '297')]))
         elif intent == 'bad-map':
-            kws.insert(rng.randint(0, len(kws)), ('**', rng.choice(BAD_MAP),
-                                                  [('interned', rng.choice(names or ['zz']), '296')]))
+            # the failing mapping carries a key no other segment uses: which of two simultaneous faults
+            # (duplicate key / failing __getitem__) is reported first is not part of the property
+            kws.insert(rng.randint(0, len(kws)), ('**', rng.choice(BAD_MAP), [('interned', 'qq_bad', '296')]))
     elif intent in ('dup-in-call', 'nonstr-key', 'bad-map'):
         intent = 'valid'
     return Shape(pos, kws, intent, star_late=rng.random() < .15)
